@@ -178,7 +178,8 @@ def build_fast(files, opts=None, stage="correlate"):
                 if s is None:
                     s = ProjectSettings(**o)
                     s.normalise_paths(root)
-                    s.fpp_extensions = []
+                    if not o.get("preprocess"):
+                        s.fpp_extensions = []
                     _fast["settings"][key] = s
                 run.settings = s
                 run.project = fp.Project(s)
